@@ -471,6 +471,8 @@ tensor semantics (aliasing, `.clone()`) has been resolved by the symbolic execut
 -/
 import GPVerif.Model.Scalar
 
+set_option linter.unusedVariables false
+
 namespace Gen.Formulas
 
 variable {α : Type} [Add α] [Sub α] [Mul α] [Div α] [Neg α] [Scalar α]
